@@ -167,7 +167,7 @@ func instantiateAt(assertion string, terms []string) []string {
 		return nil
 	}
 	bv := sexprChildren(binders[0])
-	if len(bv) != 2 || bv[1] != "Int" || !strings.HasPrefix(bv[0], "|") {
+	if len(bv) != 2 || bv[1] != "Int" {
 		return nil
 	}
 	body := ch[2]
@@ -176,7 +176,32 @@ func instantiateAt(assertion string, terms []string) []string {
 	}
 	var out []string
 	for _, t := range terms {
-		out = append(out, strings.ReplaceAll(body, bv[0], t))
+		out = append(out, substToken(body, bv[0], t))
 	}
 	return out
+}
+
+// substToken replaces every occurrence of the symbol `name` (as a whole token) by term.
+func substToken(s, name, term string) string {
+	var b strings.Builder
+	i := 0
+	delim := func(c byte) bool { return c == '(' || c == ')' || c == ' ' || c == '\n' || c == '\t' }
+	for i < len(s) {
+		if strings.HasPrefix(s[i:], name) && (i == 0 || delim(s[i-1])) && (i+len(name) == len(s) || delim(s[i+len(name)])) {
+			b.WriteString(term)
+			i += len(name)
+			continue
+		}
+		if s[i] == '|' { // skip quoted symbols atomically
+			j := strings.IndexByte(s[i+1:], '|')
+			if j >= 0 {
+				b.WriteString(s[i : i+j+2])
+				i += j + 2
+				continue
+			}
+		}
+		b.WriteByte(s[i])
+		i++
+	}
+	return b.String()
 }
